@@ -254,6 +254,12 @@ func runC25(c *engine.Ctx) {
 	}
 	// R3: a zero-size build never touches the allocator (otherwise it queues behind the peer's waiting allocations)
 	r3 := c.Rule("R3", "a message built with size 0 never goes through the memory allocator", 1)
+	// the shared executors are the other resource a stalled peer can exhaust: its requests park in the memory
+	// reservation, one executor each; the per-peer maximum is what leaves executors for everybody else
+	r4 := c.Rule("R4", "the configured per-peer maximum of concurrent responses is installed on the response queue with its own value (C21.R3)", 2)
+	c21PerPeer(c, r4)
+	r5 := c.Rule("R5", "the response manager signals a running executor without waiting for it (non-blocking sends on the pause/update/error signal channels)", 2)
+	c25Signals(c, r5)
 	nAlloc := 0
 	for _, f := range c.P.FuncsIn("messagequeue") {
 		for _, ci := range engine.Calls(f) {
@@ -304,4 +310,58 @@ func runC25(c *engine.Ctx) {
 		c.AnchorMissing(r2, "network send/connect call sites")
 	}
 	_ = token.NoPos
+}
+
+// c25Signals (R5): the executor of a response may be parked behind its peer (memory reservation, a send); the
+// manager's loop must never wait for it.  Every send on a ResponseSignals channel from the response manager is a
+// select with a default case.
+func c25Signals(c *engine.Ctx, rule string) {
+	sigT := c.P.NamedType("responsemanager/queryexecutor", "ResponseSignals")
+	if sigT == nil {
+		c.AnchorMissing(rule, "queryexecutor.ResponseSignals")
+		return
+	}
+	st, _ := sigT.Underlying().(*types.Struct)
+	isSignal := func(v ssa.Value) (string, bool) {
+		fl := fieldReadOf(v)
+		if fl == nil || st == nil {
+			return "", false
+		}
+		for i := 0; i < st.NumFields(); i++ {
+			if st.Field(i) == fl {
+				return fl.Name(), true
+			}
+		}
+		return "", false
+	}
+	n := 0
+	for _, f := range c.P.FuncsIn("responsemanager") {
+		if engine.FuncPkgPath(f) != engine.Module+"/responsemanager" {
+			continue
+		}
+		engine.Instrs(f, func(in ssa.Instruction) {
+			switch x := in.(type) {
+			case *ssa.Send:
+				if name, ok := isSignal(x.Chan); ok {
+					n++
+					c.Violate(rule, engine.FuncName(f)+"|"+name, x.Pos(), "the manager's loop sends on the executor's "+name+" channel and waits until the send succeeds: when the executor is parked behind a stalled peer and the channel's buffer is full, the loop blocks and no peer is served any more")
+				}
+			case *ssa.Select:
+				for _, s := range x.States {
+					if s.Dir != types.SendOnly {
+						continue
+					}
+					if name, ok := isSignal(s.Chan); ok {
+						n++
+						c.Decide(rule, engine.FuncName(f)+"|"+name, x.Pos(), !x.Blocking,
+							"non-blocking send (select with default) on "+name,
+							"the select sending on the executor's "+name+" channel has no default case: the manager's loop can wait behind a parked executor")
+					}
+				}
+			}
+		})
+	}
+	if n == 0 {
+		c.AnchorMissing(rule, "a send on a queryexecutor.ResponseSignals channel in responsemanager")
+	}
 }
